@@ -11,7 +11,7 @@ from ..vlab import Lab, SrcErr
 
 ID = "C07"
 LEVEL = "exploration"
-RULE = ("exhaustive enumeration: source = range(n); every (n, start, stop, step, form) with n in 0..6 (quick 0..4), "
+RULE = ("exhaustive enumeration: source = 100, 107, 114, ... (n elements, values differ from their positions); every (n, start, stop, step, form) with n in 0..6 (quick 0..4), "
         "start, stop in {None} u [-8, 8], step in {None, 1..7} (quick {None, 1, 2, 3}), form in source[a:b:c] / "
         "ops.slice(a, b, c) / source.slice(a, b, c), plus source[i] for i in [0, 8] u [-8, -2]; every case is run "
         "against a completing and an error-terminated cold source (thorough: also hot and synchronous sources); "
@@ -94,9 +94,14 @@ def always_empty(a: Any, b: Any) -> bool:
     return False
 
 
+def VAL(i: int) -> int:
+    """the i-th source element (deliberately not equal to its index: an implementation that emits the position is wrong)"""
+    return 100 + 7 * i
+
+
 def expect(case: dict, n: int, term: str) -> dict:
     """Returns {"values": exact list | None, "prefix_of": list | None, "term": set of accepted terminal kinds}."""
-    xs = list(range(n))
+    xs = [VAL(i) for i in range(n)]
     if case["form"] == "index":
         i = case["i"]
         a, b, c = i, i + 1, 1
@@ -143,7 +148,7 @@ def run_one(case: dict, kind: str, term: str, gaps: list, err: Any) -> tuple:
     msgs = []
     for i in range(n):
         t += gaps[i]
-        msgs.append((t, "N", i))
+        msgs.append((t, "N", VAL(i)))
     t += gaps[n]
     msgs.append((t, term, None if term == "C" else err))
     if kind == "hot":
@@ -259,7 +264,7 @@ def observe_minus_one(n: int, res: UnitResult) -> None:
     res.count("unjudged:source[-1]_runs")
     if n >= 1 and obs.values == []:
         res.count("unjudged:source[-1]_emitted_nothing")
-    elif n >= 1 and obs.values == [n - 1]:
+    elif n >= 1 and obs.values == [VAL(n - 1)]:
         res.count("unjudged:source[-1]_emitted_last")
 
 
